@@ -19,6 +19,11 @@ NOTE = ('Trusted: CrossHair byte-code interpreter and its str/int/list/dict/re m
 
 # id -> (level text, design ref)
 CLAIMED = {
+    'C01': ('The real full_execution.execute on test cases of stub instructions + stub actor: for every instruction-count vector in '
+            'the catalogue, every step as the site of the first fault with every applicable kind, followed by every later step '
+            'failing or a failing cleanup instruction at every position, under every status, the recorded call trace, the '
+            'previous-phase argument of cleanup, the reported status and failing step equal an independent model of the '
+            'documented protocol. Bounded: instruction counts <= 2 (quick) / <= 3 (thorough).', '4/C01'),
     'C13': ('Every line-matcher expression template in the catalogue (shape, negations, connectives concrete; comparison '
             'operators, integer operands in Z, verdicts of unknown matchers, line number symbolic) parsed by the real parser: '
             'the interval analysis covers every accepted line; filter / -line-nums output equals per-line evaluation for all '
